@@ -131,6 +131,10 @@ MUTANTS = {
          '        // GEZ + GEZ will never violate its own constraint\n        GreaterEqualZeroDecimal::try_from(*self - *rhs).unwrap()')]),
     'c05_drop_nonzero_guard': ('C05', ['@sfl_validation|unwrap<Pos>'], [
         ('src/portfolio/bookkeeping/delta_list.rs', '            if !ratio_of_sfl.numerator.is_zero() && !af.registered() {', '            if !af.registered() {')]),
+    'c05_fxt_zero_division': ('C05', ['FxTracker::add_fxt_row|division#1|divisor-is-not-zero'], [
+        ('src/peripheral/broker/fx_tracker.rs', 'if other_fxt.amount.is_zero() {', 'if other_fxt.amount.is_sign_negative() && other_fxt.amount.is_sign_positive() {')]),
+    'c05_etrade_zero_division': ('C05', ['find_sell_to_cover_trade_set|division#1|divisor-is-not-zero'], [
+        ('src/peripheral/etrade_plan_pdf_tx_extract_impl.rs', 'let avg_price = if total_shares.is_zero() {', 'let avg_price = if total_val.is_zero() {')]),
     # ------------------------------------------------------------------ C06
     'c06_trade_year': ('C06', ['R6c|portfolio::cumulative_gains::calc_security_cumulative_capital_gains|year'], [
         ('src/portfolio/cumulative_gains.rs', 'let year = d.tx.settlement_date.year();', 'let year = d.tx.trade_date.year();')]),
